@@ -24,6 +24,7 @@ RULE = ("requests `fromf64|fromf32 <bit pattern>`; oracle: exact dyadic value ro
         "value (negative binary exponent) or overflow boundary")
 BUILDS = {"quick": [("dev", ()), ("release", ())],
           "thorough": [("dev", ()), ("release", ()), ("release", ("packed",)), ("o0-nochk", ())]}
+MODE_INDEPENDENT = True      # half of every batch runs under a non-default thread rounding mode
 REQUIRED_SITES = {"approx.tie": 50, "approx.round_up": 100, "approx.frac_limit": 100}
 BUDGET = {"quick": 15, "thorough": 200}
 N_RANDOM = {"quick": 12000, "thorough": 50000}
